@@ -336,3 +336,27 @@ func TestZZWitnessD12(t *testing.T) {
 		t.Errorf("D12: decoding the same bytes twice gives %v then %v", got[0], got[1])
 	}
 }
+
+// D17: the record that follows the initial file_id definition is always taken
+// as a normal data record of local type (header & 0x0F): a compressed-timestamp
+// header (local type in bits 5-6) and even a definition header are accepted.
+func TestZZWitnessD17(t *testing.T) {
+	def := zzDefMsg(0, 0, 0, zzDef{0, 1, 0})
+	// compressed-timestamp header for local type 1 (undefined), time offset 0: must be an error
+	in := zzFile(def, []byte{0x80 | 1<<5, 4})
+	if _, err := Decode(bytes.NewReader(in)); err == nil {
+		t.Errorf("D17: data record for undefined local type 1 (compressed header 0xA0) decoded with the definition of local type 0")
+	}
+	// compressed-timestamp header for local type 0 with time offset 5: a legal file_id record
+	in = zzFile(def, []byte{0x80 | 5, 4})
+	if f, err := Decode(bytes.NewReader(in)); err != nil {
+		t.Errorf("D17: compressed header for the defined local type 0 rejected: %v", err)
+	} else if f.FileId.Type != FileTypeActivity {
+		t.Errorf("D17: file id type = %v", f.FileId.Type)
+	}
+	// a definition header where the file_id data record must be
+	in = zzFile(def, []byte{0x40, 4})
+	if _, err := Decode(bytes.NewReader(in)); err == nil {
+		t.Errorf("D17: definition record header 0x40 accepted as the file_id data record")
+	}
+}
